@@ -24,8 +24,9 @@ var rtSource string
 
 // Step of a replay script.
 type Step struct {
-	Op   string `json:"op"` // release | cancel | settle | expect-entered | expect-not-entered
-	Prov string `json:"prov,omitempty"`
+	Op    string   `json:"op"` // release | cancel | settle | barrier
+	Prov  string   `json:"prov,omitempty"`
+	Provs []string `json:"provs,omitempty"` // barrier: all of these must be inside at once
 }
 
 type Script struct {
@@ -42,6 +43,7 @@ type Observation struct {
 	StuckAt      string   `json:"stuck_at,omitempty"`
 	Returned     bool     `json:"returned"`
 	ValueZero    bool     `json:"value_zero"`
+	ValueID      string   `json:"value_id"`
 	Err          string   `json:"err"` // "nil", "fault:<prov>", "context.Canceled", "other:<text>", "none" (no error result)
 	Panic        string   `json:"panic,omitempty"`
 	Leaked       int      `json:"leaked"`       // goroutines still inside the generated file after return+grace (all gates open)
@@ -64,7 +66,7 @@ func argExpr(t types.Type) string {
 	case s == "context.Context" || s == "Context":
 		return "ctx"
 	case strings.HasPrefix(s, "*"):
-		return "&" + s[1:] + "{}"
+		return "&" + s[1:] + "{id: \"in_p" + s[1:] + "\"}"
 	}
 	switch u := t.Underlying().(type) {
 	case *types.Interface:
@@ -103,7 +105,15 @@ func Run(p *pipeline.Pipe, it *pipeline.Item, d corpus.Decl, sc Script) *Result 
 	defer os.RemoveAll(dir)
 	body := func(pr corpus.Prov) string {
 		var sb strings.Builder
-		fmt.Fprintf(&sb, "\tverifrt.Enter(%q)\n", pr.Name)
+		var argNames []string
+		for i := range pr.Params {
+			argNames = append(argNames, fmt.Sprintf("a%d", i))
+		}
+		argList := strings.Join(argNames, ", ")
+		if argList != "" {
+			argList = ", " + argList
+		}
+		fmt.Fprintf(&sb, "\tverifrt.Enter(%q%s)\n", pr.Name, argList)
 		var zeros []string
 		for _, r := range pr.Results {
 			if strings.HasPrefix(r, "*") {
@@ -118,12 +128,14 @@ func Run(p *pipeline.Pipe, it *pipeline.Item, d corpus.Decl, sc Script) *Result 
 			fmt.Fprintf(&sb, "\t_ = verifrt.Exit(%q)\n", pr.Name)
 		}
 		var rets []string
-		for _, r := range pr.Results {
-			if strings.HasPrefix(r, "*") {
-				rets = append(rets, "&"+r[1:]+"{}")
-			} else if strings.HasPrefix(r, "S") {
-				rets = append(rets, structLit(it.Prog, r))
-			} else {
+		for i, r := range pr.Results {
+			idExpr := fmt.Sprintf("verifrt.ID(%q, %d%s)", pr.Name, i, argList)
+			switch {
+			case strings.HasPrefix(r, "*S") || strings.HasPrefix(r, "S"):
+				rets = append(rets, structLit(it.Prog, r, idExpr))
+			case strings.HasPrefix(r, "*"):
+				rets = append(rets, "&"+r[1:]+"{id: "+idExpr+"}")
+			default:
 				rets = append(rets, "*new("+r+")")
 			}
 		}
@@ -133,6 +145,8 @@ func Run(p *pipeline.Pipe, it *pipeline.Item, d corpus.Decl, sc Script) *Result 
 		fmt.Fprintf(&sb, "\treturn %s\n", strings.Join(rets, ", "))
 		return sb.String()
 	}
+	it.Prog.ReplayTypes = true
+	defer func() { it.Prog.ReplayTypes = false }()
 	for name, src := range it.Prog.Emit(body, []string{"verifcorpus/verifrt"}) {
 		_ = os.WriteFile(filepath.Join(dir, name), []byte(src), 0o644)
 	}
@@ -154,6 +168,7 @@ func Run(p *pipeline.Pipe, it *pipeline.Item, d corpus.Decl, sc Script) *Result 
 		zeroCheck = "v == nil"
 	}
 	test := fmt.Sprintf(replayTestTmpl, it.Prog.Pkg, assign, zeroCheck)
+	test = strings.Replace(test, "/*VALUEID*/", "r.id = verifIDOf(v)", 1)
 	_ = os.WriteFile(filepath.Join(dir, "replay_test.go"), []byte(test), 0o644)
 	if sc.GraceMs == 0 {
 		sc.GraceMs = 300
@@ -182,15 +197,20 @@ func Run(p *pipeline.Pipe, it *pipeline.Item, d corpus.Decl, sc Script) *Result 
 	return res
 }
 
-func structLit(p *corpus.Program, name string) string {
-	var fs []string
+func structLit(p *corpus.Program, typ string, idExpr string) string {
+	name := strings.TrimPrefix(typ, "*")
+	fs := []string{"id: " + idExpr}
 	for _, f := range p.Structs[name] {
 		parts := strings.Fields(f)
 		if len(parts) == 2 && strings.HasPrefix(parts[1], "*") {
-			fs = append(fs, parts[0]+": &"+parts[1][1:]+"{}")
+			fs = append(fs, fmt.Sprintf("%s: &%s{id: \"fld_%s_%s(\" + %s + \")\"}", parts[0], parts[1][1:], name, parts[0], idExpr))
 		}
 	}
-	return name + "{" + strings.Join(fs, ", ") + "}"
+	lit := name + "{" + strings.Join(fs, ", ") + "}"
+	if strings.HasPrefix(typ, "*") {
+		return "&" + lit
+	}
+	return lit
 }
 
 func tail(s string, n int) string {
@@ -216,8 +236,16 @@ import (
 )
 
 type vStep struct {
-	Op   string ` + "`json:\"op\"`" + `
-	Prov string ` + "`json:\"prov\"`" + `
+	Op    string   ` + "`json:\"op\"`" + `
+	Prov  string   ` + "`json:\"prov\"`" + `
+	Provs []string ` + "`json:\"provs\"`" + `
+}
+
+func verifIDOf(v any) string {
+	if x, ok := v.(verifrt.IDer); ok {
+		return x.VerifID()
+	}
+	return fmt.Sprintf("%%v", v)
 }
 type vScript struct {
 	Faults     []string ` + "`json:\"faults\"`" + `
@@ -231,6 +259,7 @@ type vObs struct {
 	Realised    bool     ` + "`json:\"realised\"`" + `
 	StuckAt     string   ` + "`json:\"stuck_at,omitempty\"`" + `
 	Returned    bool     ` + "`json:\"returned\"`" + `
+	ValueID     string   ` + "`json:\"value_id\"`" + `
 	ValueZero   bool     ` + "`json:\"value_zero\"`" + `
 	Err         string   ` + "`json:\"err\"`" + `
 	Panic       string   ` + "`json:\"panic,omitempty\"`" + `
@@ -260,6 +289,7 @@ func TestVerifReplay(t *testing.T) {
 		_ = ctx
 		type result struct {
 			zero   bool
+			id     string
 			err    error
 			hasErr bool
 			panic  string
@@ -275,6 +305,7 @@ func TestVerifReplay(t *testing.T) {
 			}()
 			%[2]s
 			r.zero = %[3]s
+			/*VALUEID*/
 			r.err = err
 			r.hasErr = hasErr
 		}()
@@ -299,6 +330,12 @@ func TestVerifReplay(t *testing.T) {
 					break steps
 				}
 				verifrt.Release(s.Prov)
+			case "barrier":
+				if p, ok := verifrt.WaitAllEntered(s.Provs, 2*time.Second); !ok {
+					obs.Realised = false
+					obs.StuckAt = "barrier: " + p + " is not entered while the others are held inside"
+					break steps
+				}
 			case "cancel":
 				cancel()
 			case "settle":
@@ -318,6 +355,7 @@ func TestVerifReplay(t *testing.T) {
 		} else {
 			obs.Returned = true
 			obs.ValueZero = got.zero
+			obs.ValueID = got.id
 			obs.Panic = got.panic
 			switch {
 			case !got.hasErr:
